@@ -61,9 +61,12 @@ def route_distinguisher(tokeniser: Any) -> RouteDistinguisher:
     data = tokeniser()
 
     separator = data.find(':')
-    if separator > 0:
-        prefix = data[:separator]
-        suffix = int(data[separator + 1 :])
+    if separator <= 0:
+        raise ValueError(f'invalid route-distinguisher {data}\n  Format: <asn>:<number> or <ip>:<number>')
+    prefix = data[:separator]
+    suffix = int(data[separator + 1 :])
+    if suffix < 0 or (prefix.isdigit() is False and '.' not in prefix):
+        raise ValueError(f'invalid route-distinguisher {data}\n  Format: <asn>:<number> or <ip>:<number>')
 
     if '.' in prefix:
         data_list: list[bytes] = [bytes([0, 1])]
@@ -95,6 +98,9 @@ def prefix_sid(tokeniser: Any) -> PrefixSid:  # noqa: C901
             label_sid = tokeniser()
             while True:
                 value = tokeniser()
+                if value == '':
+                    # out of tokens before the closing ']': this loop used to spin for ever
+                    raise ValueError("missing ']'")
                 if value == '[':
                     consume_extra = True
                     continue
@@ -103,6 +109,8 @@ def prefix_sid(tokeniser: Any) -> PrefixSid:  # noqa: C901
                 if value == '(':
                     while True:
                         value = tokeniser()
+                        if value == '':
+                            raise ValueError("missing ')'")
                         if value == ')':
                             break
                         if value == ',':
